@@ -169,7 +169,14 @@ fn check_tape(tape: &[u8], gates: &Gates, codes: &[String], stats: &mut Stats, c
             }
         }
     }
-    // (b) the directory
+    // (b) the directory - sometimes with an empty sub-directory in it (not a file of the directory)
+    let with_subdir = choice.ratio(1, 4) && gates.want("DIRECTORY_WITH_EMPTY_SUBDIRECTORY");
+    if with_subdir {
+        let _ = std::fs::create_dir_all(sub.join("nested_dir"));
+        if counting {
+            stats.class("check.directory.with-empty-subdirectory");
+        }
+    }
     let o = observe_check(&["check".to_string(), sub.to_string_lossy().to_string()]);
     if let (Some(o), Some(b)) = (o, &base) {
         if counting {
@@ -375,6 +382,23 @@ pub fn witness(w: &Value, codes: &[String]) -> Result<(), String> {
                 a.push(dir.write(&format!("f{}.st", i), f.as_str().unwrap_or("").as_bytes()).to_string_lossy().to_string());
             }
             a
+        }
+        "dir_with_subdir" => {
+            // a directory holding the files and an empty sub-directory must behave like the file list
+            let d = dir.path.join("set");
+            std::fs::create_dir_all(d.join("nested_dir")).unwrap();
+            let mut files = vec!["check".to_string()];
+            for (i, f) in w["files"].as_array().cloned().unwrap_or_default().iter().enumerate() {
+                let p = d.join(format!("f{}.st", i));
+                std::fs::write(&p, f.as_str().unwrap_or("").as_bytes()).unwrap();
+                files.push(p.to_string_lossy().to_string());
+            }
+            let of = observe_check(&files).ok_or("timeout")?;
+            let od = observe_check(&["check".to_string(), d.to_string_lossy().to_string()]).ok_or("timeout")?;
+            if of.status != od.status {
+                return Err(format!("`check <dir>` exits {:?}, `check <files>` exits {:?}", od.status, of.status));
+            }
+            vec!["check".into(), d.to_string_lossy().to_string()]
         }
         l => return Err(format!("unknown layout {}", l)),
     };
